@@ -9,7 +9,9 @@ file create, write chunk, close and remove — for EVERY n.  A fresh process the
 opens the directory.  Acceptor (= DC.Conc.crash_safe on the real thing): the
 table is the state after k or k+1 completed calls, every listed key has its
 complete value, check() reports only unreferenced files / empty directories,
-the next write succeeds, and check(fix=True) removes the debris."""
+the next write succeeds, and check(fix=True) removes the debris.  Some workloads run
+on a cache at its size limit (writes evict file-backed items); the very first
+open of a directory is also killed before each of its statements."""
 import os
 import random
 import shutil
@@ -96,7 +98,13 @@ def one_case(args):
     rng = random.Random(seed)
     env = Env.get()
     cfg = {'mfs': 8, 'policy': 'none', 'cull': 10, 'stats': 0}
+    if rng.random() < 0.4:
+        # a cache at its size limit: writes evict file-backed items inside their own transaction
+        cfg = {'mfs': 8, 'policy': rng.choice(['lrs', 'lru']), 'cull': rng.choice([1, 2, 10]), 'stats': 0,
+               'limN': 32768 + rng.choice([0, 60, 150]), 'limD': 1}
     units = gen_workload(rng)
+    if cfg['policy'] != 'none':
+        units = [[{'m': 'set', 'now': 1000, 'k': 'fill%d' % i, 'v': BIG2, 'ttl': None, 'tag': None}] for i in range(4)] + units
     root = scratch_root()
     # --- reference run -----------------------------------------------------------
     d0 = tempfile.mkdtemp(prefix='c7ref-', dir=root)
@@ -187,6 +195,57 @@ def one_case(args):
     return {'seed': seed, 'units': units, 'actions': total, 'results': results}
 
 
+def first_open_kills():
+    """the very first open of a directory, killed before its n-th statement, for every n: whoever opens
+    the directory next must get a working cache"""
+    from impl import Env, scratch_root
+    import diskcache
+    env = Env.get()
+    root = scratch_root()
+    bad = []
+    d0 = tempfile.mkdtemp(prefix='c7o-', dir=root)
+    count = [0]
+    env.rec.on_raw = lambda sql: count.__setitem__(0, count[0] + 1)
+    try:
+        c = diskcache.Cache(os.path.join(d0, 'x'), disk_min_file_size=8)
+        total = count[0]
+        c.close()
+    finally:
+        env.rec.on_raw = None
+        shutil.rmtree(d0, ignore_errors=True)
+    for n in range(1, total + 1):
+        d = tempfile.mkdtemp(prefix='c7k-', dir=root)
+        target = os.path.join(d, 'x')
+        pid = os.fork()
+        if pid == 0:
+            try:
+                cnt = [0]
+
+                def hook(sql):
+                    cnt[0] += 1
+                    if cnt[0] == n:
+                        os.kill(os.getpid(), signal.SIGKILL)
+                env.rec.on_raw = hook
+                diskcache.Cache(target, disk_min_file_size=8)
+            finally:
+                os._exit(0)
+        os.waitpid(pid, 0)
+        try:
+            c = diskcache.Cache(target, disk_min_file_size=8)
+            c['k'] = b'v' * 30
+            ok = c['k'] == b'v' * 30 and len(c) == 1 and not [w for w in c.check() if not str(w.message).startswith('empty directory')]
+            c.close()
+            if not ok:
+                bad.append('first open killed before statement %d of %d: the next open gives a cache that does not work normally' % (n, total))
+        except Exception as e:
+            bad.append('first open killed before statement %d of %d: the next open raises %s: %s' % (n, total, type(e).__name__, str(e)[:80]))
+        finally:
+            shutil.rmtree(d, ignore_errors=True)
+        if len(bad) >= 2:
+            break
+    return bad, total
+
+
 def table(st):
     """counters and rows (file-backed rows carry their file's length/checksum); unreferenced files
     are permitted debris and not part of the comparison"""
@@ -209,6 +268,9 @@ def run(tier, seed, rng, known, replay):
     with ProcessPoolExecutor(max_workers=16) as ex:
         cases = list(ex.map(one_case, [(s, tier) for s in seeds], chunksize=max(1, len(seeds) // 32)))
     violations = []
+    fo_bad, fo_total = first_open_kills()
+    for v in fo_bad:
+        violations.append({'replay': {'property': 'C07', 'kind': 'first-open-kill', 'acceptor': v}, 'found_input': True, 'what': v})
     kills = 0
     mid = 0
     for c in cases:
@@ -232,7 +294,7 @@ def run(tier, seed, rng, known, replay):
                 '(quick: at most 40 sampled n per workload); distinct = distinct (workload, kill point)',
         'samples': [{'workload': base.tag(cases[0]['units']), 'actions': cases[0]['actions'], 'kill_points': len(cases[0]['results'])}],
         'traces': kills, 'exhaustive': tier != 'quick',
-        'dist': {'workloads': len(cases), 'kill_points': kills, 'kills_before_completion': mid, 'unit_kinds': kinds},
+        'dist': {'first_open_kill_points': fo_total, 'workloads': len(cases), 'kill_points': kills, 'kills_before_completion': mid, 'unit_kinds': kinds},
         'violations': violations, 'known': [],
         'assumptions': ['WAL recovery and the release of a dead process\'s locks are SQLite/OS behaviour: exercised here, assumed by DC.Conc.crash',
                         'kill points are between actions of the library (statement / file operation granularity), not inside SQLite (thorough adds asynchronous kills)'],
